@@ -71,6 +71,7 @@ func HarnessBuild() {
 	wLeafPkgs = verif.Param("leaf", 0) == 1
 	wKindMask = verif.Param("kinds", 0)
 	wSharedFinders = verif.Param("shared", 0) == 1
+	wEscapes = verif.Param("escapes", 0)
 	failed := false
 	b, err := NewBuilder(wTarget, wFetcher{}, wRegistry{})
 	verif.Assume(err == nil)
@@ -82,6 +83,13 @@ func HarnessBuild() {
 		k := wFinderKey{n, verif.Choose("add.finder", wNFinders)}
 		adds = append(adds, k)
 		diags := b.AddRemoteSource(ctx, wSource(n), wMkFinder(k.node, k.kind))
+		if wEscapeReported {
+			// C08: relative dependencies resolve inside the package that declared them - one that
+			// climbs above the package root is an error, not a silently accepted address
+			verif.Reach("escape-reported")
+			verif.Assert("C08-relative-dependency-leaving-its-package-is-refused", diags.HasErrors())
+			return
+		}
 		if wFaults {
 			if diags.HasErrors() {
 				failed = true
